@@ -125,3 +125,24 @@ Example C20_example_supply :
   = Accept {| l_id := "supply"; l_class := LADevice; l_bounds := [(Ropp 3, Ropp 1); (Ropp 3, Ropp 1); (Ropp 3, Ropp 1)];
               l_cb := None; l_params := []; l_clip := (None, None) |}.
 Proof. exact example_supply. Qed.
+
+(* ---- run_to_array / run_to_cbounds_array (loaders/builder_loader.py) and care2bounds / on2bounds (utils.py) regenerated from the source
+        on every run (Gen/Loaders.v, translator/loaders_tx.py: the KeyError on a missing run at 0, sorted(keys, key=int), the enumerate loop
+        with `int(points[i+1]) if i < len(points) - 1 else run['basis']` and the slice assignment / append, the range(0, len(on), 2) loop of
+        slice assignments, the two-item / vector switch on `len(bounds) == 2`, the mask products and np.stack(axis=1)) ARE the model the
+        statements above are about.  Run dictionaries: keys distinct after int().  on2bounds: an even number of end points (Python raises
+        IndexError on an odd one).  Any value type / any carrier; no axioms. ---- *)
+From DK.Model Require Import LoaderOps.
+From DK.Gen Require Import Loaders.
+From DK.Proofs Require Import GenLoaders.
+Theorem C20_source_run_to_array : forall (V : Type) (zero : V) basis (l : runs V), NoDup (map fst l) ->
+  run_to_array_gen zero basis l = run_to_array zero basis l.
+Proof. intros V zero basis l. apply gen_run_to_array. Qed.
+Theorem C20_source_run_to_cbounds_array : forall {A} `{Num A} basis (l : runs (A * A)), NoDup (map fst l) ->
+  run_to_cbounds_array_gen basis l = run_to_cbounds basis l.
+Proof. intros A H basis l. apply gen_run_to_cbounds. Qed.
+Theorem C20_source_care2bounds : forall {A} `{Num A} (care : list A) (b : list (param A)), care2bounds_gen care b = care2bounds care b.
+Proof. intros A H care b. apply gen_care2bounds. Qed.
+Theorem C20_source_on2bounds : forall {A} `{Num A} l on (b : list (param A)), Nat.even (List.length on) = true ->
+  on2bounds_gen l on b = on2bounds l on b.
+Proof. intros A H l on b. apply gen_on2bounds. Qed.
